@@ -4,6 +4,7 @@ package main
 
 import (
 	"go/ast"
+	"go/constant"
 	"go/parser"
 	"go/token"
 	"go/types"
@@ -236,8 +237,9 @@ func loopAppendsOnce(fi *FuncInfo, loop *ast.RangeStmt) (targets []string, ok bo
 	info := fi.Pkg.TypesInfo
 	per := map[string]int{}
 	ok = true
-	for _, a := range appendStmts(info, loop.Body, "") {
-		t := es(a.Lhs[0])
+	for _, ac := range accumStmts(info, fi.Decl, loop) {
+		a := ac.stmt
+		t := ac.target
 		conds := 0
 		for _, c := range pathCondsNoLoop(fi, a) {
 			if c.expr != nil && c.expr.Pos() >= loop.Body.Pos() && c.expr.End() <= loop.Body.End() {
@@ -274,13 +276,31 @@ func checkUnionLockstep(w *World, r *Result) {
 		Undecided("jsonForUnion: no loop over Members")
 	}
 	targets, ok, why := loopAppendsOnce(fi, loop)
+	// the two directions are told apart by what is accumulated: a decoding case switches on the Kind string
+	// (`case %q:`), an encoding case on the Go type (`case %s:`)
 	hasFrom, hasTo := false, false
-	for _, t := range targets {
-		if strings.Contains(strings.ToLower(t), "from") {
-			hasFrom = true
-		}
-		if strings.Contains(strings.ToLower(t), "to") {
-			hasTo = true
+	info := fi.Pkg.TypesInfo
+	for _, ac := range accumStmts(info, fi.Decl, loop) {
+		for _, v := range ac.values {
+			exprs := []ast.Expr{v}
+			if id := identOf(v); id != nil {
+				exprs = append(exprs, defsIn(info, fi.Decl, objOf(info, id))...)
+			}
+			for _, e := range exprs {
+				call, ok := ast.Unparen(e).(*ast.CallExpr)
+				if !ok || len(call.Args) == 0 {
+					continue
+				}
+				if tv := info.Types[call.Args[0]]; tv.Value != nil && tv.Value.Kind() == constant.String {
+					f := strings.TrimSpace(constant.StringVal(tv.Value))
+					if strings.HasPrefix(f, "case %q") {
+						hasFrom = true
+					}
+					if strings.HasPrefix(f, "case %s") {
+						hasTo = true
+					}
+				}
+			}
 		}
 	}
 	r.cond(ok && hasFrom && hasTo, "AGR-C02c", fi.Name, "one decoding and one encoding case per member", w.Pos(loop.Pos()), "lists {"+strings.Join(targets, ", ")+"} each grow exactly once per member, unconditionally", "the encoding and decoding cases are not appended once per member in lock-step ("+why+"): a member can be encoded but not decoded")
